@@ -192,7 +192,7 @@ _WORLD_K = {'C15': 2, 'C03': 2}
 _WORLD_EXTRA = {
     'C02': ([(3, 1, 3)], [(3, 1, 4)]),
     'C08': ([(3, 0, 3)], []),
-    'C19': ([(3, 0, 4), (2, 0, 5)], []),
+    'C19': ([(3, 0, 4), (2, 0, 6)], []),
     'C01': ([(3, 1, 4)], []),
     'C17': ([(1, 2, 8)], [(1, 3, 10)]),      # one module, deeper: stop from inside a handler, restart, then deliveries
     'C16': ([(1, 3, 5)], [(1, 4, 8)]),      # one module, deeper: handlers invoked by unstash that stash / unstash / stop again
